@@ -14,18 +14,24 @@ def run(rep, tier, seed):
         except Exception as e:
             skipped['oracle-unavailable:' + type(e).__name__] = skipped.get('oracle-unavailable:' + type(e).__name__, 0) + 1; continue
         if skip: skipped[skip] = skipped.get(skip, 0) + 1; continue
+        if all(progs.OPS[st_[1]]['poly'] for st_ in p.stmts):
+            # polynomial programs are defined everywhere: the same drivers at an integer-TYPED point (the derivative is not an integer)
+            try:
+                f2, n2, skip2 = T.driver_contract(progs.scalarize(p), progs.vectorize(p), rng, rec_kinds=('ndarray',), int_point=True)
+                if not skip2: fails = fails + f2; n += n2
+            except Exception as e: skipped['int-point:' + type(e).__name__] = skipped.get('int-point:' + type(e).__name__, 0) + 1
         total += n; distinct += 1
         if len(samples) < 3: samples.append({'program': p.describe(), 'driver_comparisons': n})
         seen = set()
         for f in fails:
-            key = f['driver']
+            key = f['driver'] + f.get('x_dtype', '')
             if key in seen: continue
             seen.add(key)
-            rep.violation('driver:' + f['driver'], 'record=%s' % f['record_kind'],
+            rep.violation('driver:' + f['driver'], 'record=%s%s' % (f['record_kind'], ' point-dtype=' + f['x_dtype'] if f.get('x_dtype', 'float64') != 'float64' else ''),
                           'driver %s on program %s recorded as %s: got %s want %s %s' % (f['driver'], f['program']['stmts'], f['record_kind'], f.get('got'), f.get('want'), f.get('error', '')),
                           {'kind': 'driver', **f})
     rep.add_bounded('driver contracts', total, distinct,
-                    'gradient, hessian, hess_vec (program summed to a scalar) and jacobian, jac_vec, vec_jac, vec_hess, vec_hess_vec, jacobian(UTPM) (program made 1-D) on every corpus program, recorded at one point as ndarray / UTPM with D in {1,2,3} and evaluated at a different point; oracle: exact derivatives from sympy (symbols through the same program text), for jacobian(UTPM) forward propagation alone; distinct = programs with an available oracle',
+                    'gradient, hessian, hess_vec (program summed to a scalar) and jacobian, jac_vec, vec_jac, vec_hess, vec_hess_vec, jacobian(UTPM) (program made 1-D) on every corpus program, recorded at one point as ndarray / UTPM with D in {1,2,3} and evaluated at a different point (polynomial programs also at an integer-typed point); oracle: exact derivatives from sympy (symbols through the same program text), for jacobian(UTPM) forward propagation alone; distinct = programs with an available oracle',
                     samples, 'programs <= %d ops, N=4, M<=4, relative tolerance 1e-9' % (3 if tier == 'quick' else 4))
     rep.extra['skipped'] = skipped
     rep.extra['explanation'] = 'quantifies over programs and recording/evaluation points: bounded exploration with an exact oracle; the seed/slice plumbing of each driver is straight-line code checked here end to end'
